@@ -251,6 +251,20 @@ class Program(object):
             self._bases(c)
         for c in self.classes.values():
             self._mro(c)
+        # `name = OtherClass.method` in a class body: the method is that
+        # function
+        for c in self.classes.values():
+            for k, v in list(c.attrs.items()):
+                if isinstance(v, ast.Attribute):
+                    try:
+                        b = self.eval_static(c.module, v.value)
+                    except Exception:
+                        b = None
+                    if isinstance(b, ClassInfo):
+                        r = b.lookup(v.attr)
+                        if r is not None and isinstance(r[1],
+                                                        ast.FunctionDef):
+                            c.attrs[k] = r[1]
 
     # -- loading -----------------------------------------------------------
     def _load(self):
